@@ -144,9 +144,9 @@ def eraseRoot (id : Nat) : List FN → List FN
 
 /-- `h.ext = x` -/
 def rotateTo (id : Nat) (roots : List FN) : Option (List FN) :=
-  match roots.span fun r => r.id != id with
-  | (_, []) => none
-  | (a, b) => some (b ++ a)
+  match roots.dropWhile fun r => r.id != id with
+  | [] => none
+  | b => some (b ++ roots.takeWhile fun r => r.id != id)
 
 /-- `curr.next` in the circular root list -/
 def nextOf (id : Nat) (roots : List FN) : Option Nat :=
@@ -313,17 +313,19 @@ def insert (cmp : K → K → Int) (h : IFib K V) (i : Int) (key : K) (val : V) 
     | .panic => .panic
     | .diverge => .diverge
 
+/-- `meld(h.ext, n.child)` (`rest` = root list without `n`, `ch` = child list of `n` from `n.child`) -/
+def meldChildren (rest ch : List FN) : List FN :=
+  match ch with
+  | [] => rest
+  | c :: cs => if rest.isEmpty then c :: cs else rest ++ (cs ++ [c])
+
 /-- what `Delete` and `DeleteIndex` do once the node to remove is the root `r` (already known to be a root):
 cut it out of the root list, meld its children in, `nodes[r.index] = nil`, `n--`, consolidate. -/
 def removeRoot (cmp : K → K → Int) (h : IFib K V) (r : Nat) : Outcome (IFib K V × Cell K V) :=
   match findRoot r h.roots with
   | none => .panic
   | some rn =>
-    let rest := eraseRoot r h.roots
-    let roots :=
-      match rn.child.toList with
-      | [] => rest
-      | c :: cs => if rest.isEmpty then c :: cs else rest ++ (cs ++ [c])    -- meld(h.ext, n.child)
+    let roots := meldChildren (eraseRoot r h.roots) rn.child.toList
     match h.cells[r]? with
     | none => .panic
     | some c =>
